@@ -544,6 +544,52 @@ def work_late_answers(seed: int) -> tuple:
     return n, viol
 
 
+def work_packers(seed: int) -> tuple:
+    """
+    The packers are also used one at a time (Serializer.unpack / Packer.unpack: PEX introduction points, the tunnel
+    candidate list, DHT node lists): for every registered format and every value of its boundary alphabet, every proper
+    prefix of the encoding - alone and behind 5 foreign bytes - is decoded through both entry points.  The call raises,
+    or the reported end position lies inside the buffer.
+    """
+    from ..harness import c02  # noqa: PLC0415
+    from ..ref import c02_domain as dom  # noqa: PLC0415
+    from ..ref import c02_wire as wire  # noqa: PLC0415
+    viol: dict = {}
+    n = 0
+    ser = dom.serializer()
+    for fmt in ser.get_available_formats():
+        if fmt in ("payload", "payload-list", "raw") or not wire.known(fmt):
+            continue
+        packer = ser.get_packer_for(fmt)
+        for desc in dom.alphabet_for(fmt):
+            if dom.desc_size(desc) > 600:
+                continue
+            try:
+                enc = packer.pack(*c02.packer_args(fmt, desc))
+            except Exception:  # noqa: BLE001, S112
+                continue
+            for lead in (b"", b"\x00\xff\x00\xff\x00"):
+                for cut in range(len(enc)):
+                    buf = lead + enc[:cut]
+                    for how in ("Packer.unpack", "Serializer.unpack"):
+                        n += 1
+                        try:
+                            if how == "Packer.unpack":
+                                end = packer.unpack(buf, len(lead), [])
+                            else:
+                                if fmt == "bits" or fmt in dom.MULTI_VALUE:
+                                    continue
+                                _, end = ser.unpack(fmt, buf, len(lead))
+                        except Exception:  # noqa: BLE001, S112
+                            continue
+                        if end > len(buf):
+                            viol.setdefault(f"packer-accepts-truncated:{fmt}",
+                                            (f"{how}({fmt!r}) of the first {cut} of {len(enc)} bytes of an encoding "
+                                             f"({enc[:16].hex()}..) at offset {len(lead)} returns end position {end}, the "
+                                             f"buffer has {len(buf)} bytes", {"packers": True, "seed": seed}))
+    return n, viol
+
+
 def work_snapshot(seed: int) -> tuple:
     viol: dict = {}
     n = 0
@@ -795,6 +841,9 @@ def run(ctx: core.Ctx) -> core.Report:
     n_late, v = work_late_answers(seed)
     for key, (what, rp) in v.items():
         violations.append(core.Violation(key, what, rp))
+    n_pk, v = work_packers(seed)
+    for key, (what, rp) in sorted(v.items())[:8]:
+        violations.append(core.Violation(key, what, rp))
     depth = 5 if ctx.thorough else 4    # 11-event alphabet (two overlays, a twin on the same prefix, a sniffer)
     churn = core.pmap(work_churn, [(i, depth, seed) for i in range(len(CHURN_ALPHABET))], ctx.jobs, chunk=1)
     n_churn = sum(c[0] for c in churn)
@@ -816,7 +865,7 @@ def run(ctx: core.Ctx) -> core.Report:
     for key, (what, rp) in sorted(fold.items())[:12]:
         violations.append(core.Violation(key, what, rp))
     dec["violating_classes"] = len({k.split(":")[1] for k in fold})
-    total = evals + n_cells + n_snap + dec["evaluations"] + n_churn + n_rdv + n_exit + n_bc + n_late
+    total = evals + n_cells + n_snap + dec["evaluations"] + n_churn + n_rdv + n_exit + n_bc + n_late + n_pk
     cov = {
         "evaluations": total,
         "distinct_nontrivial": total - len(items),
@@ -832,7 +881,7 @@ def run(ctx: core.Ctx) -> core.Report:
         "handler_entries_observed": entered,
         "cell_inputs": n_cells, "cell_kinds": cell_kinds,
         "snapshot_inputs": n_snap,
-        "exit_socket_inputs": n_exit, "broadcast_socket_inputs": n_bc, "late_answers": n_late,
+        "exit_socket_inputs": n_exit, "broadcast_socket_inputs": n_bc, "late_answers": n_late, "single_packer_inputs": n_pk,
         "rendezvous_relays": {"inputs": n_rdv, "table_states": rdv_states,
                               "rule": "recorded valid cells of a linked hidden-service circuit x every subset of the relay "
                                       "entries of the rendezvous point and of the downloader-side relay removed"},
@@ -862,6 +911,8 @@ def replay(ctx: core.Ctx, data) -> list:  # noqa: ANN001
         return [core.Violation(k, w) for k, (w, _) in work_exit_socket(data["seed"])[1].items()]
     if data.get("broadcast"):
         return [core.Violation(k, w) for k, (w, _) in work_broadcast(data["seed"])[1].items()]
+    if data.get("packers"):
+        return [core.Violation(k, w) for k, (w, _) in work_packers(data["seed"])[1].items()]
     if data.get("late"):
         return [core.Violation(k, w) for k, (w, _) in work_late_answers(data["seed"])[1].items()]
     if data.get("rendezvous"):
